@@ -377,6 +377,12 @@ theorem run_balS (cid : Nat) (c : Cfg) (e : Env) (s : State) (A0 : List (Nat × 
     | some ctx =>
       obtain ⟨hc1, hc2⟩ := hc s1 ctx rfl
       dsimp only
+      by_cases hadm : e.adm = 2
+      · simp only [hadm, if_true]
+        refine ⟨[], ?_⟩
+        show BalS (cancel cid ctx.cbs ctx.wkeys ctx.live s1).aevents A0 cid []
+        rw [(C01.cancel_frame _ _ _ _ _).aevents]; exact hb1
+      simp only [hadm, if_false]
       have hno : ((order e.ps ctx.apps).map (·.name)).Nodup := by
         rw [hc2]
         exact ((C01.order_perm e.ps c.apps).map _).nodup_iff.mpr hn
